@@ -339,4 +339,20 @@ example : Generated.Merge.packageInitializeEntryEffects true false =
     Generated.Merge.packageInitializeEntryEffects false true =
       ["iface.config := {}", "merge package config into iface.config", "initialize iface"] := by decide
 
+
+/-- **the package loop of `RootConfig.Initialize` is the translated source**: for every configured package – written with a
+value or as `path:` (null), with or without `config` / `interfaces` – running the effects of the translated loop body
+gives the model's `initPkg`, and the package is put on the list of recursive packages exactly when its merged `recursive`
+is true -/
+theorem root_initialize_is_the_translated_source (ft : FieldTable) (root : Cfg) (p : Option PkgCfg)
+    (interfacesNil recursive : Bool) :
+    let st := runRootEntry ft root p
+      (Generated.Merge.rootInitializeEntryEffects p.isNone (pkgConfigIsNilAtTest p) interfacesNil recursive)
+    st.out = some (initPkg ft root p) ∧ st.marked = recursive :=
+  initPkg_translated ft root p interfacesNil recursive
+
+/-- the translated loop body on a null package entry that turns out recursive -/
+example : Generated.Merge.rootInitializeEntryEffects true false false true =
+    ["pkg := new", "store pkg", "merge top-level config into pkg.config", "initialize pkg", "mark recursive"] := by decide
+
 end Mockery.C08
